@@ -150,6 +150,8 @@ func (e *CEnv) resolveType(ct *CType) types.Type {
 		return types.NewPointer(e.resolveType(ct.Elem))
 	case "slice":
 		return types.NewSlice(e.resolveType(ct.Elem))
+	case "map":
+		return types.NewMap(e.resolveType(ct.Key), e.resolveType(ct.Elem))
 	case "array":
 		n := e.tr(ct.Len)
 		if !n.T.IsLit {
